@@ -2071,6 +2071,10 @@ func runCase(raw json.RawMessage) interface{} {
 			o = runBridgeStall(c)
 		case "bridge_startrace":
 			o = runBridgeStartRace(c)
+		case "mapping_live":
+			o = runMappingLive(c)
+		case "tunnel_reregister":
+			o = runTunnelReregister(c)
 		case "spin_close":
 			o = runSpinClose(c)
 		case "mapping_stats":
